@@ -2,6 +2,7 @@
 (* AES-128 encryption (FIPS-197: 5.1 cipher, 5.2 key expansion) and the CTR mode keystream
    of NIST SP 800-38A 6.5 with the standard incrementing function over the whole block. *)
 EXTENDS CryptoBits, CryptoTables
+LOCAL INSTANCE SequencesExt       \* FoldLeft
 XT(b) == IF b >= 128 THEN ((b * 2) % 256) ^^ 27 ELSE b * 2          \* xtime
 Sb(b) == SR[b + 1]
 Rcon == <<1, 2, 4, 8, 16, 32, 64, 128, 27, 54>>
@@ -29,9 +30,9 @@ Encrypt(k, blk) == EncryptW(KeyWords(k), blk)
 \* CTR: 128-bit big-endian increment
 RECURSIVE Inc(_,_)
 Inc(c, i) == IF i = 0 THEN c ELSE IF c[i] = 255 THEN Inc([c EXCEPT ![i] = 0], i - 1) ELSE [c EXCEPT ![i] = c[i] + 1]
-RECURSIVE CtrKS(_,_,_,_)
-CtrKS(w, ctr, nblocks, acc) == IF nblocks = 0 THEN acc ELSE CtrKS(w, Inc(ctr, 16), nblocks - 1, acc \o EncryptW(w, ctr))
+CtrKS(w, ctr0, nblocks) ==
+  FoldLeft(LAMBDA a, t : [ctr |-> Inc(a.ctr, 16), out |-> a.out \o EncryptW(w, a.ctr)], [ctr |-> ctr0, out |-> <<>>], Idx(nblocks)).out
 CtrXor(k, ctr0, data) == LET n == Len(data)
-                             ks == CtrKS(KeyWords(k), ctr0, (n + 15) \div 16, <<>>)
+                             ks == CtrKS(KeyWords(k), ctr0, (n + 15) \div 16)
                          IN SubSeq([i \in 1..n |-> data[i] ^^ ks[i]], 1, n)
 =============================================================================
